@@ -99,7 +99,7 @@ struct OptRunner {
 		unsigned nops = 1 + t.pick(24);
 		for(unsigned i = 0; i < nops; i++) {
 			int s = t.pick(S), d = t.pick(S);
-			unsigned op = t.pick(14);
+			unsigned op = t.pick(15);
 			switch(op) {
 			case 0: kill(s); c.op("o%d = optional()", s); slot[s] = c.make<O>(); break;
 			case 1: kill(s); c.op("o%d = optional(null_opt)", s); slot[s] = c.make<O>(frg::null_opt); break;
@@ -113,6 +113,11 @@ struct OptRunner {
 					c.op("o%d = optional<int>(%s) const&", s, eng ? "engaged" : "empty"); if(ref[s].has_value() != eng) state_diff = true; *slot[s] = src; if(eng) ref[s] = v; else ref[s].reset(); } } break;
 			case 12: if constexpr(!std::is_same<T, int>::value) { if(slot[s]) { bool eng = t.flip(); int v = nextv++; frg::optional<int> src; if(eng) src = frg::optional<int>(v);
 					c.op("o%d = optional<int>(%s) &&", s, eng ? "engaged" : "empty"); if(ref[s].has_value() != eng) state_diff = true; *slot[s] = std::move(src); if(eng) ref[s] = v; else ref[s].reset(); } } break;
+			case 13: if(slot[s]) { O &alias = *slot[s];       // self-assignment through an alias: nothing changes (move: the state stays)
+				if constexpr(Traits<T>::copy) { if(t.flip()) { c.op("o%d = o%d (self copy)", s, s); *slot[s] = alias; c.tag("self-assign"); break; } }
+				c.op("o%d = move(o%d) (self move)", s, s); *slot[s] = std::move(alias); c.tag("self-assign");
+				VCHECK(c, "C17", slot[s]->has_value() == ref[s].has_value(), "self-move-assignment changed the engaged state");
+				if(ref[s]) ref[s] = payload(**slot[s]); } break;
 			default: if(slot[s] && ref[s]) { int v = nextv++; c.op("*o%d = %d", s, v); **slot[s] = T(v); ref[s] = v; } break;
 			}
 			check();
@@ -198,7 +203,7 @@ struct VarRunner {
 		unsigned nops = 1 + t.pick(24);
 		for(unsigned i = 0; i < nops; i++) {
 			int s = t.pick(S), d = t.pick(S);
-			unsigned op = t.pick(10);
+			unsigned op = t.pick(11);
 			switch(op) {
 			case 0: case 1: { int alt = t.pick(4); int v = nextv++; c.op("v%d = variant(alt %d, %d)", s, alt, v); make_state(s, alt, v); break; }
 			case 2: case 3: case 4: case 5: pair_op(op - 2, d, s); break;
@@ -206,6 +211,7 @@ struct VarRunner {
 				if(alt == 0) slot[s]->emplace<int>(v); else if(alt == 1) slot[s]->emplace<Tracked>(v); else slot[s]->emplace<TB>(v); idx[s] = alt; val[s] = v; } break;
 			case 8: if(slot[s]) { int alt = t.pick(3); int v = nextv++; c.op("v%d = alt %d value %d (converting assignment)", s, alt, v); if(idx[s] != alt) state_diff = true;
 				if(alt == 0) *slot[s] = int(v); else if(alt == 1) *slot[s] = Tracked(v); else *slot[s] = TB(v); idx[s] = alt; val[s] = v; } break;
+			case 9: if(slot[s]) { V &alias = *slot[s]; c.op("v%d = v%d (self copy)", s, s); *slot[s] = alias; c.tag("self-assign"); } break;
 			default: if(slot[s] && idx[s] >= 0) { int v = nextv++; c.op("write %d through get/apply of v%d", v, s);
 				if(idx[s] == 0) slot[s]->get<int>() = v; else if(idx[s] == 1) slot[s]->get<Tracked>() = Tracked(v); else slot[s]->apply([v](auto &x) -> int { x = std::remove_reference_t<decltype(x)>(v); return 0; }); val[s] = v; } break;
 			}
@@ -280,7 +286,7 @@ struct ExpRunner {
 		unsigned nops = 1 + t.pick(20);
 		for(unsigned i = 0; i < nops; i++) {
 			int s = t.pick(S), d = t.pick(S);
-			unsigned op = t.pick(12);
+			unsigned op = t.pick(13);
 			switch(op) {
 			case 0: case 1: { bool hv = t.flip(); int v = nextv++; c.op("x%d = expected(%s %d)", s, hv ? "value" : "error", v); make_state(s, hv, v); break; }
 			case 2: kill(s); c.op("x%d = expected(success)", s); slot[s] = c.make<X>(frg::success); err[s] = Err::ok; val[s] = 0; break;
@@ -293,6 +299,10 @@ struct ExpRunner {
 			case 10: if(slot[s]) { c.op("x%d.map_error()", s); int before = val[s]; auto r = slot[s]->map_error([](Err e) -> Err2 { return (Err2)((int)e * 10); });
 				if(err[s] == Err::ok) { VCHECK(c, "C17", (bool)r && payload(r.value()) == before, "map_error() on a value does not keep the value"); moved_from(s); }
 				else VCHECK(c, "C17", !r && (int)r.error() == (int)err[s] * 10, "map_error() yields error %d", r ? 0 : (int)r.error()); } break;
+			case 11: if(slot[s]) { X &alias = *slot[s];      // self-assignment through an alias
+				if(t.flip()) { c.op("x%d = x%d (self copy)", s, s); *slot[s] = alias; }
+				else { c.op("x%d = move(x%d) (self move)", s, s); *slot[s] = std::move(alias); if(err[s] == Err::ok) val[s] = payload(slot[s]->value()); }
+				c.tag("self-assign"); } break;
 			default: if(slot[s] && err[s] == Err::ok) { int v = nextv++; c.op("x%d.value() = %d", s, v); slot[s]->value() = T(v); val[s] = v; } break;
 			}
 			check();
